@@ -4,7 +4,7 @@ cd "$(dirname "$0")"
 ./setup.sh || exit 2
 for p in ${@:-C01 C02 C03 C04 C05 C06 C07 C08 C09 C10 C11 C12 C13 C14 C15 C16 C17 C18 C19 C20}; do
   s=$(date +%s)
-  ./check $p thorough --noevidence -p wall_s=${WALL:-1500} > /tmp/thorough_$p.log 2>&1
+  ./check $p thorough --noevidence -p wall_s=${WALL:-2700} > /tmp/thorough_$p.log 2>&1
   rc=$?
   e=$(date +%s)
   echo "THOROUGH $p exit=$rc wall=$((e-s))s $(tail -1 /tmp/thorough_$p.log | cut -c1-120)"
